@@ -36,10 +36,10 @@ CASE_TIMEOUT = 1200
 
 
 def plan(tier, seed):
-    n = 800 if tier == "quick" else 10000
+    n = 640 if tier == "quick" else 10000
     B = 8
     specs = [{"part": "history", "seed": seed, "lo": i, "hi": min(n, i + B)} for i in range(0, n, B)]
-    m = 24 if tier == "quick" else 150
+    m = 16 if tier == "quick" else 150
     specs += [{"part": "handover", "seed": seed, "i": i, "tier": tier} for i in range(m)]
     specs += [{"part": "registry", "seed": seed, "i": i, "tier": tier} for i in range(8 if tier == "quick" else 60)]
     return specs
@@ -52,7 +52,7 @@ def gen_history(rng):
     ops = []
     big = rng.random() < 0.12
     if big:
-        ops.append(("logmany", rng.randint(1001, 1100)))
+        ops.append(("logmany", rng.choice([rng.randint(1001, 1100), rng.randint(1990, 2100), rng.randint(2500, 4400)])))
     ndest = 0
     live = []
     for _ in range(rng.randint(3, 40)):
